@@ -19,7 +19,19 @@ def strip_private(scn):
     return clean(scn)
 
 
-def run_batch(scns, runner=impl_thr.run_scenario):
+def split_line(line):
+    """'R .. | I .. | P .. | J .. | L ..' -> dict of sections (lists of records of tokens)"""
+    out = {}
+    for part in line.split(" | "):
+        tag, _, rest = part.partition(" ")
+        if tag in ("I", "P", "J"):
+            out[tag] = [r.split() for r in rest.split(" ; ") if r.strip()]
+        else:
+            out[tag] = rest.split()
+    return out
+
+
+def run_batch(scns, runner=impl_thr.run_scenario, project=None):
     """returns a list of per-scenario results:
        {scn, lines, impl, model, obs, diff: index of first differing op or None}"""
     results = []
@@ -36,6 +48,8 @@ def run_batch(scns, runner=impl_thr.run_scenario):
         pos += n
         r["diff"] = None
         for i, (a, b) in enumerate(zip(r["impl"], r["model"])):
+            if project is not None and " | " in a and " | " in b:
+                a, b = project(a), project(b)
             if a != b:
                 r["diff"] = i
                 break
